@@ -108,6 +108,11 @@ def scenario_scope(res, pid, rng, tier):
     lines += ["ip address %s" % a for a in ("96.1.2.3", "100.1.2.3", "111.2.3.4", "95.255.0.1", "10.0.0.5", "10.0.2.5", "10.0.1.9", "8.1.1.1", "11.1.1.1", "12.1.1.1",
                                             "192.000.002.010", "192.0.2.010", "010.000.001.009", "44.001.002.003")]
     lines += ["set address 2001:DB8:0:0:0:0:0:1", "set address 2001:0db8::0001"]
+    # members of an outer preserved block that lie behind a nested inner block; special-purpose addresses that are not private-use
+    lines += ["ip route %s" % a for a in ("10.200.3.0 255.255.255.0 10.2.0.1", "10.1.255.255 10.2.0.0", "10.0.255.254 10.255.255.254")]
+    lines += ["ip host sp%d %s" % (i, a) for i, a in enumerate(("127.0.0.1", "169.254.1.1", "198.18.0.1", "192.0.2.1", "100.64.0.1", "240.0.0.1", "203.0.113.9"))]
+    variants += [dict(prefixes=None, nets=["10.0.0.0/8", "172.16.0.0/12", "192.168.0.0/16"]), dict(prefixes=None, nets=["10.0.0.0/8", "10.1.0.0/16"]),
+                 dict(prefixes=None, nets=["10.1.0.0/16", "10.0.0.0/8", "10.1.2.0/24"])]
     if res.seed % 2:
         variants.reverse()
     for v in variants + variants[:2]:
@@ -118,6 +123,46 @@ def scenario_scope(res, pid, rng, tier):
                  ctx, lines, got, spec_lines(salt, lines, **v))
         res.evaluations += len(lines)
     res.nt(("scn", "pairs"))
+
+    # ---- A2. little stack left (netconan called from deeply nested code): a line either fails as a whole or is anonymized by the map
+    import sys as _sys
+
+    def deep(n, fn):
+        return fn() if n == 0 else deep(n - 1, fn)
+    lim = _sys.getrecursionlimit()
+    ls2 = ["ipv6 address 2001:db8:aaaa:1::1:101/64", "ipv6 address 2001:db8:bbbb:7::9:909/64", "ip address 23.45.67.89", "ip address 23.45.200.1", "ntp server 99.1.2.3"]
+    for head in (60, 90, 130, 170):
+        try:
+            ob2 = _fa(salt + "rl")
+            import inspect as _insp
+            depth_now = len(_insp.stack(0))
+            _sys.setrecursionlimit(depth_now + 40 + head)
+            try:
+                got2 = deep(30, lambda: _run(ob2, ls2))
+            finally:
+                _sys.setrecursionlimit(lim)
+        except RecursionError:
+            continue                       # the run fails as a whole: nothing was produced
+        except Exception as e:  # noqa
+            fails.append({"kind": "little stack left: %s" % type(e).__name__, "salt": salt + "rl", "exc": repr(e)[:200]})
+            continue
+        _cmp(fails, "with little stack left an address is written out unchanged next to anonymized ones (an error inside the mapping was swallowed)",
+             {"salt": salt + "rl", "stack_frames_left": head}, ls2, got2, spec_lines(salt + "rl", ls2))
+        res.evaluations += len(ls2)
+    res.nt(("scn", "stack"))
+
+    # ---- A3. host-bit values beyond the IPv4 width on the command line: refused, or else anonymize-then-undo still restores the file
+    txt3 = "ip address 12.13.14.15 255.255.255.0\nipv6 address 2001:db8::77/64\nntp server 99.88.77.66\n"
+    for hb in ("33", "40", "63", "64", "128"):
+        st_a, outs_a, _ = run_cli(["-a", "-s", salt + "hb", "--preserve-host-bits", hb], {"r.cfg": txt3})
+        res.evaluations += 1
+        if st_a != "ok" or "r.cfg" not in outs_a:
+            continue                      # refused: nothing written
+        st_u, outs_u, _ = run_cli(["-u", "-s", salt + "hb", "--preserve-host-bits", hb], {"r.cfg": outs_a["r.cfg"]})
+        if st_u != "ok" or outs_u.get("r.cfg") != txt3:
+            fails.append({"kind": "anonymize then undo (same salt and options, command line) does not restore the file", "salt": salt + "hb",
+                          "preserve_host_bits": hb, "input": txt3, "anonymized": outs_a["r.cfg"], "undone": outs_u.get("r.cfg"), "undo_status": st_u})
+    res.nt(("scn", "hostbits-cli"))
 
     # ---- B. a preserved host and its /24 neighbours, in both orders
     host = (rng.choice([11, 23, 150]) << 24) + (rng.randint(1, 200) << 16) + (rng.randint(1, 200) << 8) + rng.randint(2, 250)
